@@ -181,10 +181,12 @@ func (t *Transport) Ping(addr string) error {
 
 func checkPersistConnErr(err error, pc *persistConn) {
 	if err == ErrShutdown {
+		// Close before releasing pc.mu: getConn tests alive under the same
+		// lock, so it cannot dial a replacement while this one is still open.
 		pc.mu.Lock()
 		pc.alive = false
-		pc.mu.Unlock()
 		pc.Close()
+		pc.mu.Unlock()
 	}
 }
 
